@@ -114,6 +114,14 @@ pub struct Resolver<'ast, 'res> {
     // Track the statement currently being analyzed so local use facts can be attached once.
     current_stmt: Option<StmtId>,
 
+    // Only filled while the return type of a function is inferred (at the entry of the block
+    // that defines it): the variable / function names that the function body, or the rest of
+    // the defining block, binds itself. Such a name will shadow whatever the enclosing scopes
+    // hold under it once the function runs, and its own binding has not been checked yet, so
+    // inference treats it as dynamic instead of looking it up.
+    shadowed_vars: Vec<&'ast str, &'res Arena>,
+    shadowed_funcs: Vec<&'ast str, &'res Arena>,
+
     /// Collection of semantic errors found during analysis
     pub errors: Diagnostics<'res>,
 
@@ -150,6 +158,8 @@ impl<'ast, 'res> Resolver<'ast, 'res> {
             in_loop: 0,
             scope_stack: Vec::new_in(arena),
             current_stmt: None,
+            shadowed_vars: Vec::new_in(arena),
+            shadowed_funcs: Vec::new_in(arena),
             errors: Diagnostics::new(arena),
             facts: ProgramFacts::new(facts_arena),
             optimization_plan: None,
@@ -622,7 +632,8 @@ impl<'ast, 'res> Resolver<'ast, 'res> {
         for _ in 0..pending.len() {
             let mut changed = false;
             for pending_def in &pending {
-                let return_type = self.infer_function_return_type(pending_def.body);
+                let return_type =
+                    self.infer_function_return_type(block, pending_def.params, pending_def.body);
                 let current_scope = self
                     .function_scopes
                     .last_mut()
@@ -1411,7 +1422,13 @@ impl<'ast, 'res> Resolver<'ast, 'res> {
             Expr::Bool(..) => Some(ValueType::Bool),
             Expr::Array { .. } => Some(ValueType::Array),
             Expr::Index { .. } => Some(ValueType::Dynamic),
-            Expr::Var(v, ..) => self.lookup_var_info(v).map(|(t, _)| t),
+            Expr::Var(v, ..) => {
+                if self.shadowed_vars.contains(v) {
+                    Some(ValueType::Dynamic)
+                } else {
+                    self.lookup_var_info(v).map(|(t, _)| t)
+                }
+            }
             Expr::Binary { op, lhs, rhs, .. } => {
                 let l = self.infer_expr_type(lhs)?;
                 let r = self.infer_expr_type(rhs)?;
@@ -1482,6 +1499,8 @@ impl<'ast, 'res> Resolver<'ast, 'res> {
                 Expr::Var(func_name, ..) => {
                     if let Some(builtin) = GlobalBuiltin::from_name(func_name) {
                         Some(builtin.return_type())
+                    } else if self.shadowed_funcs.contains(func_name) {
+                        Some(ValueType::Dynamic)
                     } else {
                         self.lookup_func(func_name).map(|func_sig| func_sig.return_type)
                     }
@@ -1519,9 +1538,32 @@ impl<'ast, 'res> Resolver<'ast, 'res> {
         }
     }
 
-    fn infer_function_return_type(&self, body: BlockRef<'ast>) -> ValueType {
+    /// Infers the return type of a function of `defining_block` from its `return` expressions.
+    ///
+    /// This runs at the entry of the defining block, with the scopes of the enclosing code, but
+    /// the expressions will run in the function's own scope: a name that the function binds
+    /// itself (a parameter, a `make` or a function definition anywhere in its body) or that the
+    /// defining block declares (not in scope yet at this point) must not be typed by a same-named
+    /// variable or function of the enclosing code. Those names are dynamic here.
+    fn infer_function_return_type(
+        &mut self,
+        defining_block: BlockRef<'ast>,
+        params: ParamListRef<'ast>,
+        body: BlockRef<'ast>,
+    ) -> ValueType {
+        self.shadowed_vars.extend(params.params.iter().copied());
+        for stmt in defining_block.stmts {
+            if let Stmt::Assign { var, .. } = stmt {
+                self.shadowed_vars.push(var);
+            }
+        }
+        self.collect_body_bindings(body);
+
         let mut return_types = Vec::new_in(self.arena);
         self.collect_return_types(body, &mut return_types);
+
+        self.shadowed_vars.clear();
+        self.shadowed_funcs.clear();
 
         if return_types.is_empty() {
             return ValueType::Null;
@@ -1529,6 +1571,33 @@ impl<'ast, 'res> Resolver<'ast, 'res> {
 
         let first_type = return_types[0];
         if return_types.iter().all(|t| *t == first_type) { first_type } else { ValueType::Dynamic }
+    }
+
+    /// Adds every variable and function name bound anywhere in a function body to the shadowed
+    /// names. Bodies of nested functions are skipped like in `collect_return_types_from_stmt`:
+    /// what they bind is not visible to the `return`s of this function.
+    fn collect_body_bindings(&mut self, body: BlockRef<'ast>) {
+        let mut nested = Vec::new_in(self.arena);
+        let mut block = body;
+        loop {
+            for stmt in block.stmts {
+                match stmt {
+                    Stmt::Assign { var, .. } => self.shadowed_vars.push(var),
+                    Stmt::FunctionDef { name, .. } => self.shadowed_funcs.push(name),
+                    Stmt::If { then_b, else_b, .. } => {
+                        nested.push(*then_b);
+                        if let Some(eb) = else_b {
+                            nested.push(*eb);
+                        }
+                    }
+                    Stmt::Loop { body, .. } => nested.push(*body),
+                    Stmt::Block { block, .. } => nested.push(*block),
+                    _ => {}
+                }
+            }
+            let Some(next) = nested.pop() else { break };
+            block = next;
+        }
     }
 
     fn collect_return_types(
